@@ -282,7 +282,7 @@ func ruleWhoWritesTables(w *World, r *Report, rSingle, rCache string, la *LockAn
 						}
 					}
 				}
-				ok := (val == "nil" && fi == closeS) || strings.HasPrefix(val, "make(")
+				ok := (val == "nil" && (fi == closeS || isHelperOfClose(w, fi))) || strings.HasPrefix(val, "make(")
 				r.Check(ok, rCache, con, a.Pos(), false, "the cache field receives nil (Close) or a fresh map", "the cache field of a scope is assigned "+val+" in "+fi.Name()+": scopes may share a cache")
 			default:
 				r.Check(fi == closeS, rCache, con, a.Pos(), false, "cache emptied by Close", "the scoped cache is modified ("+a.Kind+") in "+fi.Name())
@@ -394,7 +394,7 @@ func ruleCreateCallSites(w *World, r *Report, rule string) {
 			}
 			d := exprStr(c.Args[0])
 			bf := sol.Before[nd]
-			isSingleton := bf.Has(d + ".Lifetime==Singleton")
+			isSingleton := bf.Has(d+".Lifetime==Singleton") || knownSingleton(w, fi, nd, c.Args[0], 3)
 			for k := range bf {
 				if strings.HasPrefix(k, d+".Lifetime!=") {
 					// a != test taken on its false edge also yields ==; handled by condFacts
@@ -866,17 +866,8 @@ func ruleFieldFilters(w *World, r *Report, rule string) {
 			continue
 		}
 		got := res{}
-		var guardEnd token.Pos
-		for _, st := range loop.Body.List {
-			ifs, ok := st.(*ast.IfStmt)
-			if !ok || len(ifs.Body.List) != 1 {
-				continue
-			}
-			b, ok := ifs.Body.List[0].(*ast.BranchStmt)
-			if !ok || b.Tok != token.CONTINUE {
-				continue
-			}
-			c := exprStr(ifs.Cond)
+		preds, guardEnd := skipPredicates(w, info, loop.Body)
+		for _, c := range preds {
 			switch {
 			case strings.Contains(c, "IsExported()") && strings.HasPrefix(c, "!"):
 				got.unexported = true
@@ -885,7 +876,6 @@ func ruleFieldFilters(w *World, r *Report, rule string) {
 			case strings.HasSuffix(c, ".Ignore"):
 				got.ignore = true
 			}
-			guardEnd = ifs.End()
 		}
 		var missing []string
 		if !got.unexported {
@@ -912,16 +902,6 @@ func ruleFieldFilters(w *World, r *Report, rule string) {
 		}
 		r.Check(bad == "", rule, fi.Name()+"#use-after-guards", loop.Pos(), true, "fields are only touched after the three skip guards", bad)
 		// normalised skip predicates, for the pairwise comparison below
-		var preds []string
-		for _, st := range loop.Body.List {
-			ifs, ok := st.(*ast.IfStmt)
-			if !ok || len(ifs.Body.List) != 1 {
-				continue
-			}
-			if b, ok := ifs.Body.List[0].(*ast.BranchStmt); ok && b.Tok == token.CONTINUE {
-				preds = append(preds, normExpr(info, ifs.Cond))
-			}
-		}
 		sort.Strings(preds)
 		skipPreds[name] = preds
 	}
@@ -995,36 +975,68 @@ func ruleFieldFilters(w *World, r *Report, rule string) {
 		bd := w.MustFn(w.Refl, "(*Analyzer).buildDependencies")
 		info := bd.Pkg.TypesInfo
 		ok := false
-		ast.Inspect(bd.Decl.Body, func(x ast.Node) bool {
-			if rs, ok2 := x.(*ast.RangeStmt); ok2 && isFieldNamed(info, rs.X, "Parameters") {
-				unconditional := false
-				for _, st := range rs.Body.List {
-					if as, isAs := st.(*ast.AssignStmt); isAs && len(as.Rhs) == 1 {
-						if c, isC := unparen(as.Rhs[0]).(*ast.CallExpr); isC && exprStr(c.Fun) == "append" {
-							unconditional = true
-						}
+		var elem *iterLoop
+		for _, il := range iterLoopsIn(info, bd.Decl.Body) {
+			if !isFieldNamed(info, il.Coll, "Parameters") {
+				continue
+			}
+			elem = il
+			// an append that no condition controls, and no way to leave an iteration early
+			unconditional := false
+			for _, c := range callsIn(il.Body, false) {
+				if exprStr(c.Fun) == "append" {
+					if conds, _ := controllingCondsInfo(info, il.Body, c.Pos()); len(conds) == 0 {
+						unconditional = true
 					}
 				}
-				noSkip := true
-				inspectNoLit(rs.Body, func(m ast.Node) bool {
-					if b, isB := m.(*ast.BranchStmt); isB && (b.Tok == token.CONTINUE || b.Tok == token.BREAK) {
-						noSkip = false
-					}
-					return true
-				})
-				ok = unconditional && noSkip
 			}
-			return true
-		})
+			noSkip := true
+			inspectNoLit(il.Body, func(m ast.Node) bool {
+				if b, isB := m.(*ast.BranchStmt); isB && (b.Tok == token.CONTINUE || b.Tok == token.BREAK) {
+					noSkip = false
+				}
+				if _, isR := m.(*ast.ReturnStmt); isR {
+					noSkip = false
+				}
+				return true
+			})
+			ok = unconditional && noSkip
+		}
 		r.Check(ok, rule, bd.Name()+"#one-dependency-per-parameter", bd.Decl.Pos(), false, "one Dependency per analysed parameter, none dropped", "buildDependencies does not produce exactly one Dependency for each analysed parameter: the graph's edges differ from what the invoker resolves")
 		// key/group/optional copied
 		var missing []string
+		copied := func(v ast.Expr, nm string) bool {
+			if isFieldNamed(info, v, nm) {
+				return true
+			}
+			// a local every definition of which is a field of the parameter (Type: param.Type or param.ElemType)
+			o := objOf(info, v)
+			if o == nil || nm != "Type" {
+				return false
+			}
+			n, good := 0, true
+			ast.Inspect(bd.Decl.Body, func(y ast.Node) bool {
+				if as, isAs := y.(*ast.AssignStmt); isAs && len(as.Lhs) == len(as.Rhs) {
+					for i, l := range as.Lhs {
+						if objOf(info, l) == o {
+							n++
+							if !isFieldNamed(info, as.Rhs[i], "Type") && !isFieldNamed(info, as.Rhs[i], "ElemType") {
+								good = false
+							}
+						}
+					}
+				}
+				return true
+			})
+			return n > 0 && good
+		}
+		_ = elem
 		ast.Inspect(bd.Decl.Body, func(x ast.Node) bool {
 			if cl, isCl := x.(*ast.CompositeLit); isCl {
 				if tv, ok2 := info.Types[cl]; ok2 && isNamedType(tv.Type, modPath+"/internal/reflection", "Dependency") {
 					f := compositeFields(cl)
 					for _, nm := range []string{"Type", "Key", "Group", "Optional"} {
-						if v, has := f[nm]; !has || !isFieldNamed(info, v, nm) {
+						if v, has := f[nm]; !has || !copied(v, nm) {
 							missing = append(missing, nm)
 						}
 					}
@@ -1314,4 +1326,222 @@ func onlyUnderLifetime(w *World, ro *roles, fi *FuncInfo, pos token.Pos, L strin
 		}
 	}
 	return true
+}
+
+// knownSingleton: the descriptor denoted by e at node nd of fn is known to have
+// Lifetime == Singleton - by a condition on the way, or by provenance: e is a
+// parameter and every call site passes such a descriptor; e is the result of a
+// private helper every non-nil return of which is such a descriptor.
+func knownSingleton(w *World, fn *FuncInfo, nd ast.Node, e ast.Expr, depth int) bool {
+	info := fn.Pkg.TypesInfo
+	fl := w.FlowOf(fn)
+	sol := fl.Solve(Spec{Must: true, Edge: condEdge(w, info, 1)})
+	var bf Facts
+	if nd != nil {
+		bf = sol.Before[nd]
+		if _, isRet := nd.(*ast.ReturnStmt); isRet {
+			bf = sol.Before[nd]
+		}
+	}
+	if bf.Has(exprStr(e) + ".Lifetime==Singleton") {
+		return true
+	}
+	if depth == 0 {
+		return false
+	}
+	o := objOf(info, e)
+	if o == nil {
+		return false
+	}
+	// a parameter: every call site
+	idx, k := -1, 0
+	for _, f := range fn.Decl.Type.Params.List {
+		for _, nm := range f.Names {
+			if info.Defs[nm] == o {
+				idx = k
+			}
+			k++
+		}
+	}
+	if idx >= 0 {
+		if fn.Obj.Exported() {
+			return false
+		}
+		n := 0
+		for caller := range w.Callers()[fn] {
+			cfl := w.FlowOf(caller)
+			for _, cn := range cfl.Nodes() {
+				for _, c := range callsIn(cn, false) {
+					if callee(caller.Pkg.TypesInfo, c) != fn.Obj || idx >= len(c.Args) {
+						continue
+					}
+					n++
+					if !knownSingleton(w, caller, cn, c.Args[idx], depth-1) {
+						return false
+					}
+				}
+			}
+		}
+		return n > 0
+	}
+	// a local assigned once from a private helper's result
+	var call *ast.CallExpr
+	pos, cnt := -1, 0
+	ast.Inspect(fn.Decl.Body, func(x ast.Node) bool {
+		if as, ok := x.(*ast.AssignStmt); ok {
+			for i, l := range as.Lhs {
+				if objOf(info, l) == o {
+					cnt++
+					if len(as.Rhs) == 1 {
+						if c, isC := unparen(as.Rhs[0]).(*ast.CallExpr); isC {
+							call, pos = c, i
+						}
+					}
+				}
+			}
+		}
+		return true
+	})
+	if cnt != 1 || call == nil {
+		return false
+	}
+	cal := callee(info, call)
+	if cal == nil || cal.Exported() || w.Decls[cal] == nil {
+		return false
+	}
+	h := w.Decls[cal]
+	hfl := w.FlowOf(h)
+	n := 0
+	for _, ex := range hfl.Exits() {
+		if ex.Ret == nil || pos >= len(ex.Ret.Results) {
+			continue
+		}
+		res := ex.Ret.Results[pos]
+		if isNilIdent(h.Pkg.TypesInfo, res) {
+			continue
+		}
+		n++
+		if !knownSingleton(w, h, ex.Ret, res, depth-1) {
+			return false
+		}
+	}
+	return n > 0
+}
+
+// skipPredicates: the normalised conditions on which an iteration of a field
+// loop is abandoned before the field is used. Two forms are understood:
+//
+//	if COND { continue }
+//	x, ok := helper(args…); if !ok { continue }      (helper: `if COND { return …, false }` …; return …, true)
+//
+// In the second form the helper's own conditions are returned with its
+// parameters replaced by the (normalised) arguments, so that a walker that
+// calls the helper and one that spells the tests out compare equal.
+func skipPredicates(w *World, info *types.Info, body *ast.BlockStmt) (preds []string, guardEnd token.Pos) {
+	okVar := map[types.Object]*ast.CallExpr{}
+	for _, st := range body.List {
+		if as, ok := st.(*ast.AssignStmt); ok && len(as.Rhs) == 1 && len(as.Lhs) >= 1 {
+			if c, isC := unparen(as.Rhs[0]).(*ast.CallExpr); isC {
+				if o := objOf(info, as.Lhs[len(as.Lhs)-1]); o != nil {
+					if b, isB := o.Type().Underlying().(*types.Basic); isB && b.Info()&types.IsBoolean != 0 {
+						okVar[o] = c
+					}
+				}
+			}
+		}
+		ifs, ok := st.(*ast.IfStmt)
+		if !ok || len(ifs.Body.List) != 1 {
+			continue
+		}
+		b, ok := ifs.Body.List[0].(*ast.BranchStmt)
+		if !ok || b.Tok != token.CONTINUE {
+			continue
+		}
+		guardEnd = ifs.End()
+		// `if !ok { continue }` on the result of a filter helper
+		if u, isU := unparen(ifs.Cond).(*ast.UnaryExpr); isU && u.Op == token.NOT {
+			if c, has := okVar[objOf(info, u.X)]; has {
+				if hp := helperSkipPredicates(w, info, c); hp != nil {
+					preds = append(preds, hp...)
+					continue
+				}
+			}
+		}
+		preds = append(preds, normExpr(info, ifs.Cond))
+	}
+	return
+}
+
+func helperSkipPredicates(w *World, info *types.Info, c *ast.CallExpr) []string {
+	cal := callee(info, c)
+	if cal == nil || w.Decls[cal] == nil {
+		return nil
+	}
+	h := w.Decls[cal]
+	hinfo := h.Pkg.TypesInfo
+	var out []string
+	last := false
+	for i, st := range h.Decl.Body.List {
+		switch s := st.(type) {
+		case *ast.IfStmt:
+			if len(s.Body.List) == 1 {
+				if ret, ok := s.Body.List[0].(*ast.ReturnStmt); ok && len(ret.Results) >= 1 && exprStr(ret.Results[len(ret.Results)-1]) == "false" {
+					out = append(out, normExprSub(hinfo, s.Cond, h, c, info))
+				}
+			}
+		case *ast.ReturnStmt:
+			if i == len(h.Decl.Body.List)-1 && len(s.Results) >= 1 && exprStr(s.Results[len(s.Results)-1]) == "true" {
+				last = true
+			}
+		}
+	}
+	if !last || len(out) == 0 {
+		return nil
+	}
+	return out
+}
+
+// normExprSub: normExpr of an expression of helper h in which h's parameters are
+// replaced by the normalised arguments of call c (made in a function with caller info).
+func normExprSub(hinfo *types.Info, e ast.Expr, h *FuncInfo, c *ast.CallExpr, callerInfo *types.Info) string {
+	argOf := map[types.Object]ast.Expr{}
+	k := 0
+	for _, f := range h.Decl.Type.Params.List {
+		for _, nm := range f.Names {
+			if k < len(c.Args) {
+				a := unparen(c.Args[k])
+				if ue, isU := a.(*ast.UnaryExpr); isU && ue.Op == token.AND {
+					a = ue.X
+				}
+				argOf[hinfo.Defs[nm]] = a
+			}
+			k++
+		}
+	}
+	var norm func(e ast.Expr) string
+	norm = func(e ast.Expr) string {
+		switch x := e.(type) {
+		case *ast.ParenExpr:
+			return "(" + norm(x.X) + ")"
+		case *ast.Ident:
+			if a, ok := argOf[hinfo.Uses[x]]; ok {
+				return normExpr(callerInfo, a)
+			}
+			return normExpr(hinfo, x)
+		case *ast.SelectorExpr:
+			return norm(x.X) + "." + x.Sel.Name
+		case *ast.UnaryExpr:
+			return x.Op.String() + norm(x.X)
+		case *ast.BinaryExpr:
+			return norm(x.X) + " " + x.Op.String() + " " + norm(x.Y)
+		case *ast.CallExpr:
+			var args []string
+			for _, a := range x.Args {
+				args = append(args, norm(a))
+			}
+			return norm(x.Fun) + "(" + strings.Join(args, ", ") + ")"
+		}
+		return exprStr(e)
+	}
+	return norm(e)
 }
